@@ -331,3 +331,12 @@ pub fn block_on<F: std::future::Future>(f: F) -> F::Output {
         .unwrap()
         .block_on(f)
 }
+
+/// Same, with a blocking pool of `pool` threads (the `P` of the pipeline model NV.Async.Reader).
+pub fn block_on_pool<F: std::future::Future>(pool: usize, f: F) -> F::Output {
+    tokio::runtime::Builder::new_current_thread()
+        .max_blocking_threads(pool.max(1))
+        .build()
+        .unwrap()
+        .block_on(f)
+}
